@@ -113,6 +113,31 @@ impl World {
         }
         out
     }
+    /// the three fee ledgers queried per asset id (`asset_id: Some(..)`): [pending, all-time, burned] × 2 assets
+    fn fees_by_id(&self) -> [[u128; 2]; 3] {
+        let mut out = [[u128::MAX; 2]; 3];
+        for k in 0..2 {
+            let id = match self.info(k) {
+                AssetInfo::NativeToken { denom } => denom,
+                AssetInfo::Token { contract_addr } => contract_addr,
+            };
+            let qs = [
+                p::QueryMsg::ProtocolFees { asset_id: Some(id.clone()), all_time: Some(false) },
+                p::QueryMsg::ProtocolFees { asset_id: Some(id.clone()), all_time: Some(true) },
+                p::QueryMsg::BurnedFees { asset_id: Some(id.clone()) },
+            ];
+            for (j, q) in qs.iter().enumerate() {
+                if let Ok(r) = self.app.wrap().query_wasm_smart::<p::ProtocolFeesResponse>(&self.pair, q) {
+                    // (the all-time form ignores `asset_id` and answers with the whole listing)
+                    let info = self.info(k);
+                    if let Some(x) = r.fees.iter().find(|x| x.info == info) {
+                        out[j][k] = x.amount.u128();
+                    }
+                }
+            }
+        }
+        out
+    }
     fn cast(&self) -> Vec<Addr> {
         let mut v = vec![self.pair.clone(), self.collector.clone(), self.collector2.clone(), self.owner.clone(), self.minter.clone(), self.lp.clone()];
         v.extend(self.users.iter().cloned());
@@ -436,6 +461,14 @@ impl PairEngine {
                 }
             }
         }
+        // ---- C07: the per-asset form of the fee queries reports the same ledgers as the listing form
+        let by_id = w.fees_by_id();
+        mon.check(
+            "C07",
+            "pair_fee_queries_agree",
+            by_id[0] == post.pend && by_id[1] == post.all && by_id[2] == post.burn,
+            d(format!("after {op}: by asset id {by_id:?} vs listing pending {:?} all-time {:?} burned {:?}", post.pend, post.all, post.burn)),
+        );
         // ---- C07: ledgers vs harness-side ghost sums
         for k in 0..2 {
             mon.check(
